@@ -334,9 +334,13 @@ def sheetAttrList (ridKey : String) (s : XSheet) : List (String × String) :=
 def sheetEvents (q : String → String) (ridKey : String) (s : XSheet) : List Ev :=
   [.start (q "sheet") (sheetAttrList ridKey s), .end_ (q "sheet")]
 
-/-- `<definedName name=…>text…</definedName>`; the text may arrive in several `Text` events -/
-def definedNameEvents (q : String → String) (n : String × List String) : List Ev :=
-  [.start (q "definedName") [("name", n.1)]] ++ n.2.map Ev.text ++ [.end_ (q "definedName")]
+/-- a piece of character data: `(true, s)` = a CDATA section `<![CDATA[s]]>`, `(false, s)` = ordinary text -/
+def chunkEv (c : Bool × String) : Ev := if c.1 then .cdata c.2 else .text c.2
+
+/-- `<definedName name=…>…</definedName>`; the character data may arrive in several events, ordinary text and
+    CDATA sections in any mix -/
+def definedNameEvents (q : String → String) (n : String × List (Bool × String)) : List Ev :=
+  [.start (q "definedName") [("name", n.1)]] ++ n.2.map chunkEv ++ [.end_ (q "definedName")]
 
 /-- the optional `<workbookPr …/>` -/
 def prEvents (q : String → String) : Option (List (String × String)) → List Ev
@@ -355,7 +359,7 @@ def ExtOk (n : String) (body : List Ev) : Prop := ∀ e ∈ body, (∀ a, e ≠ 
 
 /-- the events of `xl/workbook.xml`: `<workbook> [<workbookPr …/>] <sheets>…</sheets> <definedNames>…</definedNames> [<extLst>…</extLst>] </workbook>` -/
 def workbookEvents (q : String → String) (ridKey : String) (pr : Option (List (String × String)))
-    (sheets : List XSheet) (names : List (String × List String)) (ext : Option (List Ev) := none) : List Ev :=
+    (sheets : List XSheet) (names : List (String × List (Bool × String))) (ext : Option (List Ev) := none) : List Ev :=
   .start (q "workbook") [] ::
     (prEvents q pr ++
      (.start (q "sheets") [] ::
@@ -377,8 +381,8 @@ def ridKeyOk (k : String) : Prop := (afterColon k.toList).isSome = true ∧ loca
 
 def QOk (q : String → String) : Prop := ∀ s, localName (q s) = s
 
-/-- the text of a defined name: its `Text` events concatenated -/
-def dnValue (n : String × List String) : String × String := (n.1, n.2.foldl (· ++ ·) "")
+/-- the text of a defined name: its character data concatenated, text and CDATA alike -/
+def dnValue (n : String × List (Bool × String)) : String × String := (n.1, n.2.foldl (fun acc c => acc ++ c.2) "")
 
 /-- a table in `content.xml`: name, optional style reference, and the (opaque) events of its rows -/
 structure OTable where
